@@ -114,7 +114,7 @@ Definition print_entry (e : entry) : str := flat_map (print_var e) all_vars.
 (* str::lines(): split at '\n'; a '\r' is stripped only when it precedes that
    '\n'; no empty piece after a final newline *)
 Definition strip_cr (l : str) : str :=
-  match List.rev l with 13 :: r => List.rev r | _ => l end.
+  match frev l with 13 :: r => frev r | _ => l end.
 Definition lines (s : str) : list str :=
   let ps := split_on 10 s in
   map strip_cr (removelast ps) ++ (match last ps [] with [] => [] | l => [l] end).
